@@ -6,6 +6,7 @@ import os
 import sys
 
 sys.path.insert(0, os.path.dirname(os.path.dirname(os.path.abspath(__file__))))
+sys.path.insert(0, os.path.dirname(os.path.abspath(__file__)))
 from wrapsa.rules_matlab import mini_exec, _PathEval, _Raised   # noqa: E402
 
 CASES = [
@@ -37,6 +38,9 @@ CASES = [
 ]
 
 
+from interp_cases_obj import OBJECT_CASES   # noqa: E402
+
+
 def main():
     bad = 0
     for src, args in CASES:
@@ -66,7 +70,34 @@ def main():
         if norm(got) != norm(want):
             bad += 1
             print("MISMATCH", src.replace("\n", " | ")[:120], "python:", want, "interpreter:", got)
-    print(f"interp selftest: {len(CASES)} cases, {bad} mismatches")
+    for arg, src in OBJECT_CASES:
+        tree = ast.parse(src)
+        for p in ast.walk(tree):
+            for c in ast.iter_child_nodes(p):
+                c._parent = p
+        ns = {}
+        exec(compile(src, "<case>", "exec"), ns)
+        want = ns["f"](arg)
+        classes = {}
+        for c in tree.body:
+            if isinstance(c, ast.ClassDef):
+                d = {}
+                for b in c.bases:
+                    d.update({k: v for k, v in classes.get(b.id, {}).items() if k != "__bases__"})
+                d.update({m.name: m for m in c.body if isinstance(m, ast.FunctionDef)})
+                d["__bases__"] = [b.id for b in c.bases] + [x for b in c.bases for x in classes.get(b.id, {}).get("__bases__", [])]
+                classes[c.name] = d
+        fn = next(x for x in tree.body if isinstance(x, ast.FunctionDef) and x.name == "f")
+        try:
+            got = mini_exec(fn, {fn.args.args[0].arg: arg}, budget=20000, classes=classes or None)
+        except (_PathEval.Unknown, _Raised) as ex:
+            bad += 1
+            print("UNSUPPORTED object case ->", ex)
+            continue
+        if [list(x) if isinstance(x, tuple) else x for x in got] != [list(x) if isinstance(x, tuple) else x for x in want]:
+            bad += 1
+            print("MISMATCH object case: python:", want, "interpreter:", got)
+    print(f"interp selftest: {len(CASES) + len(OBJECT_CASES)} cases, {bad} mismatches")
     return 1 if bad else 0
 
 
